@@ -104,3 +104,13 @@ Proof.
   exists (old_state f101010 255 16 16), w_zrle_pal, 44.
   split; [split; [apply old_state_wf; lia|unfold bypp_pos; cbn; lia]|exact w_zrle_pal_oob].
 Qed.
+
+(* ---- the repaired flow (baseline [init_state], fixes 0..6 = commits dd06ff7..a7a3a60) still leaves an object in
+        the 24-bit ZRLE instances: the last 3-byte CPIXEL of a completely filled scratch area is read as 4 bytes
+        (reproduced under ASan on a7a3a60, corpus/C08/w_zrle_cpixel24.script, finding C08-F27, status known);
+        with fix 8 (notes/fix_C08_7.diff) the same stream decodes *)
+Theorem C08_zrle_cpixel24_refuted : exists s ts c, st_ok s /\ c_fix s = 127 /\ handle_msg s ts = Oob c.
+Proof.
+  exists (init_state f888 255 65 1), w_zrle_cp24, 36.
+  split; [split; [apply init_state_wf; lia|unfold bypp_pos; cbn; lia]|split; [reflexivity|exact w_zrle_cp24_oob]].
+Qed.
